@@ -69,20 +69,20 @@ def run(ck):
     a, p = ex["h_c05"], ex["h_c05p"]
     J = JOBS
     if ck.tier == "quick":
-        ck.enum(p, ["--depth=2", "--kinds=core", "--mode=error"], "d2-core-error", batch=64, deadline_s=100, jobs=J)
-        ck.enum(p, ["--depth=1", "--kinds=all", "--mode=error"], "d1-all-error", batch=64, deadline_s=40, jobs=J)
-        ck.enum(p, ["--depth=1", "--kinds=all", "--mode=throw"], "d1-all-throw", batch=64, deadline_s=40, jobs=J)
-        ck.enum(p, ["--depth=1", "--kinds=all", "--part=sites"], "d1-sites", batch=64, deadline_s=40, jobs=J)
-        ck.enum(a, ["--depth=1", "--kinds=all", "--mode=error"], "asan-d1-all-error", batch=32, deadline_s=60, jobs=J)
+        ck.enum(p, ["--depth=2", "--kinds=core", "--mode=error"], "d2-core-error", batch=64, deadline_s=100, jobs=J, timeout_ms=400000)
+        ck.enum(p, ["--depth=1", "--kinds=all", "--mode=error"], "d1-all-error", batch=64, deadline_s=40, jobs=J, timeout_ms=400000)
+        ck.enum(p, ["--depth=1", "--kinds=all", "--mode=throw"], "d1-all-throw", batch=64, deadline_s=40, jobs=J, timeout_ms=400000)
+        ck.enum(p, ["--depth=1", "--kinds=all", "--part=sites"], "d1-sites", batch=64, deadline_s=40, jobs=J, timeout_ms=400000)
+        ck.enum(a, ["--depth=1", "--kinds=all", "--mode=error"], "asan-d1-all-error", batch=32, deadline_s=60, jobs=J, timeout_ms=400000)
     else:
-        ck.enum(p, ["--depth=2", "--kinds=all", "--mode=error"], "d2-all-error", batch=64, deadline_s=420, jobs=J)
-        ck.enum(p, ["--depth=2", "--kinds=all", "--mode=throw"], "d2-all-throw", batch=64, deadline_s=420, jobs=J)
-        ck.enum(p, ["--depth=3", "--kinds=mini", "--mode=error"], "d3-mini-error", batch=64, deadline_s=300, jobs=J)
-        ck.enum(p, ["--depth=3", "--kinds=mini", "--mode=throw"], "d3-mini-throw", batch=64, deadline_s=300, jobs=J)
-        ck.enum(p, ["--depth=2", "--kinds=all", "--part=sites"], "d2-sites", batch=64, deadline_s=120, jobs=J)
-        ck.enum(a, ["--depth=2", "--kinds=core", "--mode=error"], "asan-d2-core-error", batch=32, deadline_s=420, jobs=J)
-        ck.enum(a, ["--depth=1", "--kinds=all", "--mode=throw"], "asan-d1-all-throw", batch=32, deadline_s=90, jobs=J)
-        ck.enum(a, ["--depth=1", "--kinds=all", "--part=sites"], "asan-d1-sites", batch=32, deadline_s=60, jobs=J)
+        ck.enum(p, ["--depth=2", "--kinds=all", "--mode=error"], "d2-all-error", batch=64, deadline_s=420, jobs=J, timeout_ms=400000)
+        ck.enum(p, ["--depth=2", "--kinds=all", "--mode=throw"], "d2-all-throw", batch=64, deadline_s=420, jobs=J, timeout_ms=400000)
+        ck.enum(p, ["--depth=3", "--kinds=mini", "--mode=error"], "d3-mini-error", batch=64, deadline_s=300, jobs=J, timeout_ms=400000)
+        ck.enum(p, ["--depth=3", "--kinds=mini", "--mode=throw"], "d3-mini-throw", batch=64, deadline_s=300, jobs=J, timeout_ms=400000)
+        ck.enum(p, ["--depth=2", "--kinds=all", "--part=sites"], "d2-sites", batch=64, deadline_s=120, jobs=J, timeout_ms=400000)
+        ck.enum(a, ["--depth=2", "--kinds=core", "--mode=error"], "asan-d2-core-error", batch=32, deadline_s=420, jobs=J, timeout_ms=400000)
+        ck.enum(a, ["--depth=1", "--kinds=all", "--mode=throw"], "asan-d1-all-throw", batch=32, deadline_s=90, jobs=J, timeout_ms=400000)
+        ck.enum(a, ["--depth=1", "--kinds=all", "--part=sites"], "asan-d1-sites", batch=32, deadline_s=60, jobs=J, timeout_ms=400000)
     fix_replays(ck)
     cov = vlib.enum_coverage(ck.parts, RULE, "fault_raised",
                              extra={"fault_positions": sum(p_.get("total", 0) for p_ in ck.parts),
